@@ -198,7 +198,7 @@ def odb_cases(draw):
         a = draw(st.sampled_from(_ARGS))
         lines.append(draw(st.sampled_from(["l%d = []\nl%d.append(%s)\n", "d%d = {}\nd%d['k'] = %s\n", "s%d = set()\ns%d.add(%s)\n"])) % (j, j, a))
     other = "import mod\nw = mod.f0(%s, %s)\nu = mod.C().m(w)\n" % (draw(st.sampled_from(_ARGS[:6])), draw(st.sampled_from(_ARGS[:6])))
-    return {"kind": "objectdb", "files": {"mod.py": "".join(lines), "other.py": other}, "reopens": draw(st.integers(1, 2))}
+    return {"kind": "objectdb", "files": {"mod.py": "".join(lines), "other.py": other}, "reopens": draw(st.integers(1, 2)), "sync_between": draw(st.booleans())}
 
 
 def strategy(tier):
@@ -425,8 +425,12 @@ def _eval_odb(case):
     try:
         fsmodel.write_tree(root, case["files"])
         project = _open(root)
-        for p in sorted(case["files"]):
+        paths = sorted(case["files"])
+        for i_, p in enumerate(paths):
             project.pycore.analyze_module(project.get_file(p))
+            if case.get("sync_between") and i_ == 0:
+                # the same session saves once in the middle (project.sync()) and goes on collecting information
+                project.sync()
         img = _odb_image(project)
         ncalls = sum(len(s[0]) for f in img.values() for s in f.values())
         npn = sum(len(s[1]) for f in img.values() for s in f.values())
